@@ -3,16 +3,20 @@ import QV.Model.Compiler
 # Decidable sub-classes of the compiler fragment for cleanliness (C03) and xor-oracles (C06)
 
 `inFragment` (in `QV/Model/Compiler.lean`) is the class of `QV.C02.C02_fragment_partial`.
-`inCleanFragment` additionally asks for a non-empty return list (the defined name is a requested return
-bit, so the statement ends with the inline `uncompute` and the final `uncompute_all` finds every gate
-target kept or already freed).
+`inCleanFragment`, the class of `QV.C03.C03_fragment_partial`, is now the same class: either the defined
+name is a requested return bit (the statement ends with the inline `uncompute` and the final
+`uncompute_all` finds every gate target kept or already freed) or no return name is requested (the
+statement ends with `keep_ancillas` and `uncompute_all([])` replays every gate in reverse).
 
-History: for the unrepaired compiler the class also asked that every `Or` has at most two arguments
+History: for the unrepaired compiler the class also asked (1) that every `Or` has at most two arguments
 (`smallOr`): `compile_or` with three or more distinct argument qubits took a De Morgan branch
 (`X… MCX X… X`) that flipped its argument qubits temporarily, and `uncompute` replayed the `MCX` without
 the surrounding `X` gates (finding `C03-uncompute-stale`, repaired: `compile_or` now folds binary ors
-into new ancillas).  `smallOr` is kept for the witness about the unrepaired compiler
-(`QV.C03.C03_fragment_demorgan_witness`); it is no longer part of any class.
+into new ancillas), and (2) for a non-empty return list: with no return name nothing was kept and
+`uncompute_all` replayed the gates of the result qubit after their controls had been uncomputed inline
+(repaired: ancillas of a definition that is not a return bit are kept until `uncompute_all`).  `smallOr`
+is kept for the witness about the unrepaired compiler (`QV.C03.C03_fragment_demorgan_witness`); it is no
+longer part of any class.
 -/
 namespace QV.Compiler
 open QV
@@ -31,10 +35,10 @@ def smallOrList : List BExp → Bool
   | a :: as => smallOr a && smallOrList as
 end
 
-/-- the class of `QV.C03.C03_fragment_partial`: `inFragment` and at least one requested return name
-(`Or`s of any arity) -/
+/-- the class of `QV.C03.C03_fragment_partial`: `inFragment` (`Or`s of any arity; every requested return
+name is the defined one, or none is requested) -/
 def inCleanFragment (inputs : List String) (defs : List (String × BExp)) (rets : List String) : Bool :=
-  inFragment inputs defs rets && !rets.isEmpty
+  inFragment inputs defs rets
 
 /-- the class of `QV.C06.C06_fragment_partial`: `inCleanFragment` and the output qubit is not an
 argument qubit (a bare argument symbol is copied into a new qubit only under a return name `_ret…`,
